@@ -44,6 +44,10 @@ func TickerOf(oprName string) int {
 
 // ---------------------------------------------------------------- FAT-2
 
+// AssetOmitted as TxPart.Asset writes an input without a "type" key, padded so
+// that the length check of the parser still passes.
+const AssetOmitted = -1
+
 func fat2JSON(parts []TxPart, signer factom.FAAddress, nonce int) []byte {
 	var sb strings.Builder
 	sb.WriteString(`{"version":1,"transactions":[`)
@@ -59,7 +63,14 @@ func fat2JSON(parts []TxPart, signer factom.FAAddress, nonce int) []byte {
 		if p.Asset >= 1 && p.Asset <= NumTickers {
 			tick = TickerNames[p.Asset]
 		}
-		fmt.Fprintf(&sb, `{"input":{"address":"%s","amount":%d,"type":"%s"}`, in.String(), p.Amt, tick)
+		if p.Asset == AssetOmitted {
+			// no "type" key at all; an unknown key pads the object to the length the
+			// parser expects for a type it would print as "invalid token type"
+			pad := len(`{"address":,"amount":,"type":""}`) + len("invalid token type") - len(`{"address":,"amount":,"x":""}`)
+			fmt.Fprintf(&sb, `{"input":{"address":"%s","amount":%d,"x":"%s"}`, in.String(), p.Amt, strings.Repeat("p", pad))
+		} else {
+			fmt.Fprintf(&sb, `{"input":{"address":"%s","amount":%d,"type":"%s"}`, in.String(), p.Amt, tick)
+		}
 		if p.Conv != 0 {
 			ct := "invalid"
 			if p.Conv >= 1 && p.Conv <= NumTickers {
